@@ -80,45 +80,45 @@ def evalFinal (data : List Byte) (st : PState) : PFinal → POut
       | _, _, _ => .panic
 
 /-- run guards / bindings; `inl out` = returned early, `inr st` = fell through -/
-def runSteps (tbl : List (Nat × Nat × Option Nat)) (cla ins p1 : Nat) (data : List Byte) :
+def runPSteps (tbl : List (Nat × Nat × Option Nat)) (cla ins p1 : Nat) (data : List Byte) :
     List PStep → PState → Sum POut PState
   | [], st => .inr st
   | .guardErr c e :: rest, st =>
     match evalCond cla ins data st c with
     | none => .inl .panic
     | some true => .inl (.ret (.error e))
-    | some false => runSteps tbl cla ins p1 data rest st
+    | some false => runPSteps tbl cla ins p1 data rest st
   | .guardVersion c :: rest, st =>
     match evalCond cla ins data st c with
     | none => .inl .panic
     | some true => .inl (.ret (.ok .version))
-    | some false => runSteps tbl cla ins p1 data rest st
+    | some false => runPSteps tbl cla ins p1 data rest st
   | .control :: rest, st =>
     match (tbl.find? (fun (lo, hi, _) => lo ≤ p1 ∧ p1 ≤ hi)).bind (·.2.2) with
     | none => .inl (.ret (.error .incorrectDataParameter))
-    | some cb => runSteps tbl cla ins p1 data rest { st with cb := some cb }
+    | some cb => runPSteps tbl cla ins p1 data rest { st with cb := some cb }
   | .bindIdx i :: rest, st =>
     match data[i]? with
     | none => .inl .panic
-    | some b => runSteps tbl cla ins p1 data rest { st with khl := some b.toNat }
+    | some b => runPSteps tbl cla ins p1 data rest { st with khl := some b.toNat }
 
-def runArms (tbl : List (Nat × Nat × Option Nat)) (cla ins p1 : Nat) (data : List Byte) (st : PState) (dflt : PFinal) :
+def runPArms (tbl : List (Nat × Nat × Option Nat)) (cla ins p1 : Nat) (data : List Byte) (st : PState) (dflt : PFinal) :
     List (Nat × List PStep × PFinal) → POut
   | [] => evalFinal data st dflt
   | (n, steps, fin) :: rest =>
     if ins = n then
-      match runSteps tbl cla ins p1 data steps st with
+      match runPSteps tbl cla ins p1 data steps st with
       | .inl out => out
       | .inr st' => evalFinal data st' fin
-    else runArms tbl cla ins p1 data st dflt rest
+    else runPArms tbl cla ins p1 data st dflt rest
 
 /-- the whole conversion; `ins` is first normalised as the source does
     (`Instruction::Unknown(ins) => ins, _ => 0`) -/
 def runProgram (p : PProgram) (tbl : List (Nat × Nat × Option Nat)) (cla ins p1 : Nat) (data : List Byte) : POut :=
   let ins' := if namedInstructions.contains ins then 0 else ins
-  match runSteps tbl cla ins' p1 data p.pre {} with
+  match runPSteps tbl cla ins' p1 data p.pre {} with
   | .inl out => out
-  | .inr st => runArms tbl cla ins' p1 data st p.default p.arms
+  | .inr st => runPArms tbl cla ins' p1 data st p.default p.arms
 
 namespace Spec
 /-- FIDO U2F raw message formats §3: class, then version, then per instruction -/
@@ -142,16 +142,16 @@ theorem runProgram_spec (tbl : List (Nat × Nat × Option Nat)) (cla ins p1 : Na
   unfold runProgram ctap1Parse
   simp only [Spec.u2fProgram]
   generalize (if namedInstructions.contains ins = true then 0 else ins) = i
-  simp only [runSteps, evalCond]
+  simp only [runPSteps, evalCond]
   by_cases hc : cla ≠ 0
   · simp [hc]
   · simp only [hc, decide_false, if_false]
     by_cases h3 : i = 3
     · simp [h3]
-    · simp only [h3, decide_false, if_false, runArms]
+    · simp only [h3, decide_false, if_false, runPArms]
       by_cases h1 : i = 1
       · subst h1
-        simp only [if_true, runSteps, evalCond]
+        simp only [if_true, runPSteps, evalCond]
         by_cases hl : data.length ≠ 64
         · simp [hl]
         · have hl' : data.length = 64 := by omega
@@ -164,7 +164,7 @@ theorem runProgram_spec (tbl : List (Nat × Nat × Option Nat)) (cla ins p1 : Na
       · simp only [h1, if_false]
         by_cases h2 : i = 2
         · subst h2
-          simp only [if_true, runSteps]
+          simp only [if_true, runPSteps]
           cases (tbl.find? (fun (lo, hi, _) => lo ≤ p1 ∧ p1 ≤ hi)).bind (·.2.2) with
           | none => rfl
           | some cb =>
